@@ -28,6 +28,9 @@ func init() {
 			Trusted:     commonTrusted,
 		},
 		Mutants: []Mutant{
+			{Name: "promoted fields overwrite outer fields (original defect)", File: "eval.go", Old: "\t\tif old, ok := cache[field.Name]; !ok || len(index) <= len(old) {\n\t\t\tcache[field.Name] = index\n\t\t}", New: "\t\tcache[field.Name] = index", Rule: "C06.cache"},
+			{Name: "deeper field wins", File: "eval.go", Old: "!ok || len(index) <= len(old) {", New: "!ok || len(index) >= len(old) {", Rule: "C06.cache"},
+			{Name: "equivalent: depth test mirrored", File: "eval.go", Old: "!ok || len(index) <= len(old) {", New: "!ok || len(old) >= len(index) {", Rule: "-"},
 			{Name: "slice bounds unchecked (original defect)", File: "eval.go", Old: "\t\tif index < 0 || length < index || length > baseExpression.Len() {\n\t\t\tnode.errorf(\"slice bounds out of range [%d:%d] with length %d\", index, length, baseExpression.Len())\n\t\t}\n", New: "", Rule: "C06.bounds"},
 			{Name: "upper bound off by one is not the issue: upper bound not checked at all", File: "eval.go", Old: "\t\tif index < 0 || length < index || length > baseExpression.Len() {", New: "\t\tif index < 0 || length < index {", Rule: "C06.bounds"},
 			{Name: "kind of the sliced value no longer tested", File: "eval.go", Old: "\t\tswitch baseExpression.Kind() {\n\t\tcase reflect.Array, reflect.Slice, reflect.String:\n\t\tdefault:\n\t\t\tnode.errorf(\"cannot slice value of type %s\", getTypeString(baseExpression))\n\t\t}\n", New: "", Rule: "C06.bounds"},
@@ -61,6 +64,7 @@ func runC06(c *an.Ctx) {
 	c06fieldPath(c)
 	c06unwrap(c)
 	c06mapKey(c)
+	c06shallowest(c)
 }
 
 func c06bounds(c *an.Ctx) { boundsRule(c, "C06.bounds") }
@@ -430,6 +434,94 @@ func c06unexp(c *an.Ctx) {
 		}
 	}
 	c.Check(ok, "C06.unexp", "buildCache/exported-only", bc.Pos(), "the field cache stores a field only when its PkgPath is empty (exported)", "buildCache stores a field index without having established PkgPath == \"\": unexported fields become reachable through the fast path")
+}
+
+// c06shallowest: the field cache follows Go's selector rule for embedded structs — a field hides the
+// fields of the same name promoted from deeper levels.  buildCache walks embedded structs recursively,
+// so an entry may only be (over)written where no entry exists yet or the new index path is not longer
+// than the one it replaces.
+func c06shallowest(c *an.Ctx) {
+	p := c.P
+	bc := c.Fn("C06.cache", "buildCache")
+	if bc == nil {
+		return
+	}
+	info := bc.Info()
+	recursive := false
+	for _, call := range p.CallsIn(bc, "jet.buildCache") {
+		_ = call
+		recursive = true
+	}
+	if !recursive {
+		c.OK("C06.cache", "buildCache/shallowest-wins", bc.Pos(), "the cache is not built by recursion into embedded structs")
+		return
+	}
+	var stores []ast.Node
+	type storeInfo struct{ m, key, val string }
+	sinfo := map[ast.Node]storeInfo{}
+	an.InspectOwn(bc, func(n ast.Node) bool {
+		if as, ok := n.(*ast.AssignStmt); ok && len(as.Lhs) == 1 && len(as.Rhs) == 1 {
+			if ix, ok := as.Lhs[0].(*ast.IndexExpr); ok {
+				if id, ok := an.Unparen(ix.X).(*ast.Ident); ok {
+					if _, isParam := an.IsParam(bc, an.ObjOf(info, id)); isParam {
+						stores = append(stores, as)
+						sinfo[as] = storeInfo{an.Str(ix.X), an.Norm(bc, ix.Index), an.Str(as.Rhs[0])}
+					}
+				}
+			}
+		}
+		return true
+	})
+	// comma-ok lookups of the same map: old, ok := cache[key]
+	type lookup struct{ old, ok, key string }
+	var lookups []lookup
+	an.InspectOwn(bc, func(n ast.Node) bool {
+		as, isAs := n.(*ast.AssignStmt)
+		if !isAs || len(as.Lhs) != 2 || len(as.Rhs) != 1 {
+			return true
+		}
+		ix, isIx := an.Unparen(as.Rhs[0]).(*ast.IndexExpr)
+		if !isIx {
+			return true
+		}
+		lookups = append(lookups, lookup{an.Str(as.Lhs[0]), an.Str(as.Lhs[1]), an.Str(ix.X) + "|" + an.Norm(bc, ix.Index)})
+		return true
+	})
+	pb := p.ProbeFn(bc, stores, an.Hooks{})
+	c.States += pb.X.Visited
+	ok := len(stores) > 0
+	for _, s := range stores {
+		si := sinfo[s]
+		if len(pb.At[s]) == 0 {
+			ok = false
+		}
+		for _, st := range pb.At[s] {
+			guarded := false
+			for _, lk := range lookups {
+				if lk.key != si.m+"|"+si.key {
+					continue
+				}
+				if an.FactIs(st, lk.ok, false) {
+					guarded = true // nothing stored under that name yet
+				}
+				nw, od := "len("+si.val+")", "len("+lk.old+")"
+				for k, v := range st.Facts {
+					pk := strings.ReplaceAll(an.PlainKey(k), " ", "")
+					switch {
+					case v && (pk == nw+"<="+od || pk == nw+"<"+od || pk == od+">="+nw || pk == od+">"+nw):
+						guarded = true
+					case !v && (pk == nw+">"+od || pk == od+"<"+nw):
+						guarded = true
+					}
+				}
+			}
+			if !guarded {
+				ok = false
+			}
+		}
+	}
+	c.Check(ok, "C06.cache", "buildCache/shallowest-wins", bc.Pos(), "an entry of the field cache is written only where none exists or the new index path is not longer than the old one",
+		"buildCache overwrites an entry of the field cache without comparing depths: a field promoted from an embedded struct replaces the outer field of the same name declared before it, and {{ .Name }} yields the embedded struct's value")
 }
 
 func findIdentArg(ret *ast.ReturnStmt) (*ast.Ident, bool) {
